@@ -15,6 +15,93 @@ open Gca
 /-- The clock is within 24 h of the signing time (and nothing wraps in 64 bits). -/
 def Fresh (now time : Nat) : Prop := 86400 ≤ now ∧ now + 86400 < 2^64 ∧ time ≤ now + 86400 ∧ now - 86400 ≤ time
 
+theorem c10_layout (A B C G I R S T Sg : Bytes)
+    (hA : A.length = 32) (hB : B.length = 4) (hC : C.length = 504) (hG : G.length = 32)
+    (hI : I.length = 4) (hS : S.length = 64) (hT : T.length = 8) (hSg : Sg.length = 64)
+    (resp : Bytes) (hr : resp = A ++ (B ++ (C ++ (G ++ (I ++ (R ++ (S ++ (T ++ Sg)))))))) :
+    resp.length = 712 + R.length ∧
+    resp.take 32 = A ∧ (resp.drop 32).take 4 = B ∧ (resp.drop 36).take 504 = C ∧
+    (resp.drop 540).take 32 = G ∧ (resp.drop 572).take 4 = I ∧
+    (resp.drop (576 + R.length)).take 64 = S ∧
+    (resp.drop (640 + R.length)).take 8 = T ∧
+    resp.drop (648 + R.length) = Sg ∧
+    resp.take (648 + R.length) = A ++ (B ++ (C ++ (G ++ (I ++ (R ++ (S ++ T)))))) ∧
+    (resp.drop 540).take (36 + R.length) = G ++ (I ++ R) ∧
+    (resp.drop 576).take R.length = R := by
+  have hlen : resp.length = 712 + R.length := by
+    subst hr; simp [*]; omega
+  have d32 : resp.drop 32 = B ++ (C ++ (G ++ (I ++ (R ++ (S ++ (T ++ Sg)))))) := by
+    rw [hr, drop_app _ _ hA]
+  have d36 : resp.drop 36 = C ++ (G ++ (I ++ (R ++ (S ++ (T ++ Sg))))) := by
+    rw [show (36:Nat) = 32 + 4 from rfl, ← List.drop_drop, d32, drop_app _ _ hB]
+  have d540 : resp.drop 540 = G ++ (I ++ (R ++ (S ++ (T ++ Sg)))) := by
+    rw [show (540:Nat) = 36 + 504 from rfl, ← List.drop_drop, d36, drop_app _ _ hC]
+  have d572 : resp.drop 572 = I ++ (R ++ (S ++ (T ++ Sg))) := by
+    rw [show (572:Nat) = 540 + 32 from rfl, ← List.drop_drop, d540, drop_app _ _ hG]
+  have d576 : resp.drop 576 = R ++ (S ++ (T ++ Sg)) := by
+    rw [show (576:Nat) = 572 + 4 from rfl, ← List.drop_drop, d572, drop_app _ _ hI]
+  have dS : resp.drop (576 + R.length) = S ++ (T ++ Sg) := by
+    rw [← List.drop_drop, d576, drop_app _ _ rfl]
+  have dT : resp.drop (640 + R.length) = T ++ Sg := by
+    rw [show 640 + R.length = 576 + R.length + 64 from by omega, ← List.drop_drop, dS,
+      drop_app _ _ hS]
+  have dSg : resp.drop (648 + R.length) = Sg := by
+    rw [show 648 + R.length = 640 + R.length + 8 from by omega, ← List.drop_drop, dT,
+      drop_app _ _ hT]
+  refine ⟨hlen, ?_, ?_, ?_, ?_, ?_, ?_, ?_, dSg, ?_, ?_, ?_⟩
+  · rw [hr, take_app _ _ hA]
+  · rw [d32, take_app _ _ hB]
+  · rw [d36, take_app _ _ hC]
+  · rw [d540, take_app _ _ hG]
+  · rw [d572, take_app _ _ hI]
+  · rw [dS, take_app _ _ hS]
+  · rw [dT, take_app _ _ hT]
+  · have : resp = (A ++ (B ++ (C ++ (G ++ (I ++ (R ++ (S ++ T))))))) ++ Sg := by
+      rw [hr]; simp only [List.append_assoc]
+    rw [this]
+    exact take_app _ _ (by simp [*]; omega)
+  · rw [d540]
+    have : G ++ (I ++ (R ++ (S ++ (T ++ Sg)))) = (G ++ (I ++ R)) ++ (S ++ (T ++ Sg)) := by
+      simp only [List.append_assoc]
+    rw [this]
+    exact take_app _ _ (by simp [*]; omega)
+  · rw [d576, take_app _ _ rfl]
+
+theorem c10_parse_core (V : Verify) (ck gk sk : Key) (now time : Nat)
+    (A B C G I R S T Sg : Bytes) (servers : List AuthServer)
+    (hA : A.length = 32) (hB : B.length = 4) (hC : C.length = 504) (hG : G.length = 32)
+    (hI : I.length = 4) (hS : S.length = 64) (hT : T.length = 8) (hSg : Sg.length = 64)
+    (hAk : A = ck) (hf : Fresh now time) (hT' : unle T = time)
+    (hv : V sk (A ++ (B ++ (C ++ (G ++ (I ++ (R ++ (S ++ T))))))) Sg = true)
+    (hmig : G ≠ zeros 32 → V gk (migrationPrefix ++ (A ++ (G ++ (I ++ R)))) S = true)
+    (hdec : AuthServer.decodeList R.length R = some servers)
+    (hne : G ≠ zeros 32 → servers ≠ [])
+    (hsv : ∀ a ∈ servers, V (if G ≠ zeros 32 then G else gk) (AuthServer.signingBytes a) a.sig = true) :
+    parseReply V ck gk sk now (A ++ (B ++ (C ++ (G ++ (I ++ (R ++ (S ++ (T ++ Sg))))))))
+      = some ⟨unle B, C, G, unle I, servers⟩ := by
+  generalize hr : A ++ (B ++ (C ++ (G ++ (I ++ (R ++ (S ++ (T ++ Sg))))))) = resp
+  obtain ⟨hn, t32, tB, tC, tG, tI, tS, tT, dSg, tBody, tMig, tR⟩ :=
+    c10_layout A B C G I R S T Sg hA hB hC hG hI hS hT hSg resp hr.symm
+  have e72 : resp.length - 72 = 640 + R.length := by omega
+  have e64 : resp.length - 64 = 648 + R.length := by omega
+  have e136 : resp.length - 136 = 576 + R.length := by omega
+  have em : 576 + R.length - 540 = 36 + R.length := by omega
+  have er : 576 + R.length - 576 = R.length := Nat.add_sub_cancel_left ..
+  obtain ⟨f1, f2, f3, f4⟩ := hf
+  have w1 : (now + 86400) % 2^64 = now + 86400 := Nat.mod_eq_of_lt f2
+  have w2 : (now + 2^64 - 86400) % 2^64 = now - 86400 := by omega
+  unfold parseReply
+  simp only [e72, e64, e136, em, er, t32, tB, tC, tG, tI, tS, tT, dSg, tBody, tMig, tR, hT', w1, w2]
+  rw [if_neg (by omega), if_neg (by omega), if_neg (by simp [hv]), if_neg (by simp [hAk])]
+  rw [if_neg (by intro ⟨h1, h2⟩; simp [hmig h1] at h2)]
+  simp only [hdec]
+  rw [if_neg (by intro ⟨h1, h2⟩; exact hne h1 h2)]
+  rw [if_neg]
+  simp only [List.any_eq_true, not_exists, Bool.not_eq_true']
+  intro a ⟨ha, h⟩
+  rw [hsv a ha] at h
+  cases h
+
 /-- Round trip, list of servers (no migration order). -/
 theorem c10_roundtrip_servers (V : Verify) (sgn : Bytes → Bytes) (key gcaKey gcasKey : Key)
     (off : Nat) (bits : Bytes) (servers : List AuthServer) (time now : Nat)
@@ -25,7 +112,27 @@ theorem c10_roundtrip_servers (V : Verify) (sgn : Bytes → Bytes) (key gcaKey g
     (hg : ∀ a ∈ servers, V gcaKey (AuthServer.signingBytes a) a.sig = true) :
     parseReply V key gcaKey gcasKey now (buildReply sgn key off bits none servers time)
       = some ⟨off, bits, zeros 32, 0, servers⟩ := by
-  sorry
+  have z36 : zeros 36 = zeros 32 ++ zeros 4 := by decide
+  have hz : unle (zeros 4) = 0 := by decide
+  have htime : time < 256 ^ 8 := by
+    obtain ⟨_, h2, h3, _⟩ := hf
+    have : (256 : Nat) ^ 8 = 2 ^ 64 := by decide
+    omega
+  have hoff : off < 256 ^ 4 := by simpa using ho
+  unfold buildReply
+  simp only [z36, List.append_assoc]
+  have hcore := c10_parse_core V key gcaKey gcasKey now time key (leBytes 4 off) bits (zeros 32)
+    (zeros 4) (AuthServer.encodeList servers) (zeros 64) (leBytes 8 time)
+    (sgn (key ++ (leBytes 4 off ++ (bits ++ (zeros 32 ++ (zeros 4 ++
+      (AuthServer.encodeList servers ++ (zeros 64 ++ leBytes 8 time))))))))
+    servers hk (leBytes_length _ _) hb (zeros_length _) (zeros_length _) (zeros_length _)
+    (leBytes_length _ _) (hsl _) rfl hf (unle_leBytes_of_lt htime) (hv _)
+    (fun h => absurd rfl h)
+    (AuthServer.decodeList_encodeList servers hs _ (AuthServer.encodeList_length_ge servers hs))
+    (fun h => absurd rfl h)
+    (by intro a ha; rw [if_neg (by simp)]; exact hg a ha)
+  rw [unle_leBytes_of_lt hoff, hz] at hcore
+  exact hcore
 
 /-- Round trip, migration order (at least one new server, each signed by the new GCA;
 the order itself signed by the current GCA over the signing bytes with this device's key). -/
@@ -38,34 +145,147 @@ theorem c10_roundtrip_migration (V : Verify) (sgn : Bytes → Bytes) (key gcaKey
     (hn : ∀ a ∈ m.servers, V m.newGCA (AuthServer.signingBytes a) a.sig = true) :
     parseReply V key gcaKey gcasKey now (buildReply sgn key off bits (some m) [] time)
       = some ⟨off, bits, m.newGCA, m.newId, m.servers⟩ := by
-  sorry
+  obtain ⟨_, hm2, hm3, hm4, hm5⟩ := hm
+  have htime : time < 256 ^ 8 := by
+    obtain ⟨_, h2, h3, _⟩ := hf
+    have : (256 : Nat) ^ 8 = 2 ^ 64 := by decide
+    omega
+  have hoff : off < 256 ^ 4 := by simpa using ho
+  have hid : m.newId < 256 ^ 4 := by simpa using hm3
+  unfold buildReply
+  simp only [Migration.tail, List.append_assoc]
+  have hcore := c10_parse_core V key gcaKey gcasKey now time key (leBytes 4 off) bits m.newGCA
+    (leBytes 4 m.newId) (AuthServer.encodeList m.servers) m.sig (leBytes 8 time)
+    (sgn (key ++ (leBytes 4 off ++ (bits ++ (m.newGCA ++ (leBytes 4 m.newId ++
+      (AuthServer.encodeList m.servers ++ (m.sig ++ leBytes 8 time))))))))
+    m.servers hk (leBytes_length _ _) hb hm2 (leBytes_length _ _) hm5
+    (leBytes_length _ _) (hsl _) rfl hf (unle_leBytes_of_lt htime) (hv _)
+    (fun _ => by
+      have : Migration.signingBytes m = migrationPrefix ++ (key ++ (m.newGCA ++
+          (leBytes 4 m.newId ++ AuthServer.encodeList m.servers))) := by
+        rw [← hme]; rfl
+      rw [← this]; exact hg)
+    (AuthServer.decodeList_encodeList m.servers hm4 _ (AuthServer.encodeList_length_ge m.servers hm4))
+    (fun _ => hsv)
+    (by intro a ha; rw [if_pos hne]; exact hn a ha)
+  rw [unle_leBytes_of_lt hoff, unle_leBytes_of_lt hid] at hcore
+  exact hcore
+
+/-- Binary value of a list of flags, least significant first. -/
+def c10_bval : List Bool → Nat
+  | [] => 0
+  | b :: bs => (if b then 1 else 0) + 2 * c10_bval bs
+
+theorem c10_sum_zipIdx (l : List Bool) (k : Nat) :
+    ((l.zipIdx k).map (fun (b, j) => if b then 2^j else 0)).sum = 2^k * c10_bval l := by
+  induction l generalizing k with
+  | nil => simp [c10_bval]
+  | cons b bs ih =>
+    simp only [List.zipIdx_cons, List.map_cons, List.sum_cons, ih, c10_bval]
+    rw [Nat.pow_succ, Nat.mul_add, Nat.mul_assoc]
+    cases b <;> simp
+
+theorem c10_bval_lt (l : List Bool) : c10_bval l < 2 ^ l.length := by
+  induction l with
+  | nil => simp [c10_bval]
+  | cons b bs ih =>
+    simp only [c10_bval, List.length_cons, Nat.pow_succ]
+    cases b <;> simp <;> omega
+
+theorem c10_bval_bit (l : List Bool) (j : Nat) :
+    c10_bval l / 2^j % 2 = if l.getD j false then 1 else 0 := by
+  induction l generalizing j with
+  | nil => simp [c10_bval]
+  | cons b bs ih =>
+    cases j with
+    | zero =>
+      simp only [c10_bval, Nat.pow_zero, Nat.div_one, List.getD_cons_zero]
+      cases b <;> simp <;> omega
+    | succ j =>
+      simp only [c10_bval, List.getD_cons_succ]
+      rw [Nat.pow_succ, Nat.mul_comm (2^j) 2, ← Nat.div_div_eq_div_mul]
+      have : ((if b = true then 1 else 0) + 2 * c10_bval bs) / 2 = c10_bval bs := by
+        cases b <;> simp <;> omega
+      rw [this, ih]
+
+theorem c10_packByte_bit (l : List Bool) (hl : l.length ≤ 8) (j : Nat) :
+    (packByte l).toNat / 2^j % 2 = if l.getD j false then 1 else 0 := by
+  unfold packByte
+  rw [c10_sum_zipIdx l 0, Nat.pow_zero, Nat.one_mul, UInt8.toNat_ofNat']
+  have h1 := c10_bval_lt l
+  have h2 : 2 ^ l.length ≤ 2 ^ 8 := Nat.pow_le_pow_right (by decide) hl
+  rw [Nat.mod_eq_of_lt (show c10_bval l < 2 ^ 8 by omega)]
+  exact c10_bval_bit l j
+
+theorem c10_packBits_length (n : Nat) (l : List Bool) : (packBits n l).length = n := by
+  induction n generalizing l with
+  | zero => simp [packBits]
+  | succ n ih => simp [packBits, ih]
+
+theorem c10_packBits_bit (n : Nat) : ∀ (l : List Bool) (i : Nat), i < 8 * n →
+    bitSet (packBits n l) i = l.getD i false := by
+  induction n with
+  | zero => intro l i h; omega
+  | succ n ih =>
+    intro l i h
+    by_cases hi : i < 8
+    · have e : (packBits (n+1) l).getD (i / 8) 0 = packByte (l.take 8) := by
+        rw [Nat.div_eq_of_lt hi]; rfl
+      have hlen : (l.take 8).length ≤ 8 := by simp; omega
+      have : (l.take 8).getD i false = l.getD i false := by
+        simp [List.getD_eq_getElem?_getD, hi]
+      unfold bitSet
+      simp only [e, Nat.mod_eq_of_lt hi, c10_packByte_bit _ hlen, this]
+      cases l.getD i false <;> simp
+    · obtain ⟨j, rfl⟩ : ∃ j, i = j + 8 := ⟨i - 8, by omega⟩
+      have hb : bitSet (packBits (n+1) l) (j + 8) = bitSet (packBits n (l.drop 8)) j := by
+        have e : (packBits (n+1) l).getD ((j + 8) / 8) 0 = (packBits n (l.drop 8)).getD (j / 8) 0 := by
+          rw [Nat.add_div_right _ (by decide)]; rfl
+        unfold bitSet
+        simp only [e, Nat.add_mod_right]
+      rw [hb, ih (l.drop 8) j (by omega)]
+      simp [List.getD_eq_getElem?_getD, List.getElem?_drop, Nat.add_comm]
 
 /-- Bit `i` of the packed bitfield is flag `i` (server packs, client tests). -/
 theorem c10_bit (flags : List Bool) (i : Nat) (hl : flags.length = 4032) (hi : i < 4032) :
     bitSet (packBits 504 flags) i = flags.getD i false ∧ (packBits 504 flags).length = 504 := by
-  sorry
+  have _ := hl
+  exact ⟨c10_packBits_bit 504 flags i (by omega), c10_packBits_length 504 flags⟩
 
 /-- The server sets flag `i` iff it holds a (possibly banned) record for timeslot `off + i`. -/
 theorem c10_flags_meaning (s : Srv.State) (id : Nat) (d : Srv.Dev) (h : s.devices.get id = some d) :
     ∃ mig servers, Srv.sync s id = .syncReply d.auth.key s.off (d.reports.map (fun r => decide (r.p > 0))) mig servers := by
-  sorry
+  unfold Srv.sync
+  rw [h]
+  simp only
+  split
+  · exact ⟨_, _, rfl⟩
+  · exact ⟨_, _, rfl⟩
 
 /-- An unknown (or banned, hence removed) id gets a refusal. -/
 theorem c10_unknown_refused (s : Srv.State) (id : Nat) (h : s.devices.get id = none) :
     Srv.sync s id = .syncRefused := by
-  sorry
+  simp [Srv.sync, h]
 
 /-! Rejections: each is an error return before anything is handed to the caller. -/
 
 theorem c10_reject_short (V : Verify) (ck gk sk : Key) (now : Nat) (resp : Bytes) (h : resp.length < 712) :
     parseReply V ck gk sk now resp = none := by
-  sorry
+  unfold parseReply
+  simp only
+  rw [if_pos h]
 
 /-- Not signed by the contacted server's key (or altered in any way that makes verification fail). -/
 theorem c10_reject_bad_server_signature (V : Verify) (ck gk sk : Key) (now : Nat) (resp : Bytes)
     (h : V sk (resp.take (resp.length - 64)) (resp.drop (resp.length - 64)) = false) :
     parseReply V ck gk sk now resp = none := by
-  sorry
+  unfold parseReply
+  simp only
+  split
+  · rfl
+  split
+  · rfl
+  rw [if_pos (by simp [h])]
 
 /-- More than 24 hours away from the client's clock. -/
 theorem c10_reject_stale (V : Verify) (ck gk sk : Key) (now : Nat) (resp : Bytes)
@@ -73,12 +293,26 @@ theorem c10_reject_stale (V : Verify) (ck gk sk : Key) (now : Nat) (resp : Bytes
     (h : unle ((resp.drop (resp.length - 72)).take 8) > now + 86400 ∨
          unle ((resp.drop (resp.length - 72)).take 8) < now - 86400) :
     parseReply V ck gk sk now resp = none := by
-  sorry
+  have w1 : (now + 86400) % 2^64 = now + 86400 := Nat.mod_eq_of_lt hn2
+  have w2 : (now + 2^64 - 86400) % 2^64 = now - 86400 := by omega
+  unfold parseReply
+  simp only [w1, w2]
+  split
+  · rfl
+  rfl
 
 /-- Bound to another device's key. -/
 theorem c10_reject_other_device (V : Verify) (ck gk sk : Key) (now : Nat) (resp : Bytes)
     (h : resp.take 32 ≠ ck) : parseReply V ck gk sk now resp = none := by
-  sorry
+  unfold parseReply
+  simp only
+  split
+  · rfl
+  split
+  · rfl
+  split
+  · rfl
+  rfl
 
 /-- Whatever is accepted carries the required GCA signatures: a migration order
 verifies under the CURRENT GCA over the signing bytes that name THIS device, and
@@ -92,14 +326,96 @@ theorem c10_accept_implies_signed (V : Verify) (ck gk sk : Key) (now : Nat) (res
         ((resp.drop (resp.length - 136)).take 64) = true ∧
       p.servers ≠ [] ∧ ∀ a ∈ p.servers, V p.newGCA (AuthServer.signingBytes a) a.sig = true) ∧
     (p.newGCA = zeros 32 → ∀ a ∈ p.servers, V gk (AuthServer.signingBytes a) a.sig = true) := by
-  sorry
+  unfold parseReply at h
+  simp only at h
+  by_cases c1 : resp.length < 712
+  · rw [if_pos c1] at h; cases h
+  rw [if_neg c1] at h
+  by_cases c2 : (now + 86400) % 2 ^ 64 < unle (List.take 8 (List.drop (resp.length - 72) resp)) ∨
+      (now + 2 ^ 64 - 86400) % 2 ^ 64 > unle (List.take 8 (List.drop (resp.length - 72) resp))
+  · rw [if_pos c2] at h; cases h
+  rw [if_neg c2] at h
+  by_cases c3 : (!V sk (resp.take (resp.length - 64)) (resp.drop (resp.length - 64))) = true
+  · rw [if_pos c3] at h; cases h
+  rw [if_neg c3] at h
+  by_cases c4 : resp.take 32 ≠ ck
+  · rw [if_pos c4] at h; cases h
+  rw [if_neg c4] at h
+  have c4' : resp.take 32 = ck := Decidable.of_not_not c4
+  have c3' : V sk (resp.take (resp.length - 64)) (resp.drop (resp.length - 64)) = true := by
+    simpa using c3
+  by_cases c5 : (resp.drop 540).take 32 ≠ zeros 32 ∧
+      (!V gk (migrationPrefix ++ (resp.take 32 ++ (resp.drop 540).take (resp.length - 136 - 540)))
+        ((resp.drop (resp.length - 136)).take 64)) = true
+  · rw [if_pos c5] at h; cases h
+  rw [if_neg c5] at h
+  generalize AuthServer.decodeList _ _ = d at h
+  cases d with
+  | none => cases h
+  | some servers =>
+    simp only at h
+    by_cases c6 : (resp.drop 540).take 32 ≠ zeros 32 ∧ servers = []
+    · rw [if_pos c6] at h; cases h
+    rw [if_neg c6] at h
+    by_cases c7 : (servers.any fun a =>
+        !V (if (resp.drop 540).take 32 ≠ zeros 32 then (resp.drop 540).take 32 else gk)
+          (AuthServer.signingBytes a) a.sig) = true
+    · rw [if_pos c7] at h; cases h
+    rw [if_neg c7] at h
+    cases h
+    simp only
+    have c7' : ∀ a ∈ servers,
+        V (if (resp.drop 540).take 32 ≠ zeros 32 then (resp.drop 540).take 32 else gk)
+          (AuthServer.signingBytes a) a.sig = true := by
+      intro a ha
+      cases hva : V (if (resp.drop 540).take 32 ≠ zeros 32 then (resp.drop 540).take 32 else gk)
+          (AuthServer.signingBytes a) a.sig with
+      | true => rfl
+      | false =>
+        exfalso; apply c7
+        rw [List.any_eq_true]
+        exact ⟨a, ha, by rw [hva]; rfl⟩
+    refine ⟨c3', c4', fun hg => ⟨?_, ?_, ?_⟩, fun hg => ?_⟩
+    · rw [← c4']
+      cases hm : V gk (migrationPrefix ++ (resp.take 32 ++ (resp.drop 540).take (resp.length - 136 - 540)))
+        ((resp.drop (resp.length - 136)).take 64) with
+      | true => rfl
+      | false => exfalso; exact c5 ⟨hg, by rw [hm]; rfl⟩
+    · intro hs; exact c6 ⟨hg, hs⟩
+    · intro a ha; have := c7' a ha; rwa [if_pos hg] at this
+    · intro a ha; have := c7' a ha; rwa [if_neg (by simp [hg])] at this
+
+theorem c10_attempts_keeps (n : Nat) : ∀ (c : Client) (failed : List Key) (ch : List (Key × Attempt)),
+    (attempts c n failed ch).1.gcaKey = c.gcaKey ∧ (attempts c n failed ch).1.shortId = c.shortId ∧
+    (attempts c n failed ch).1.servers = c.servers ∧ (attempts c n failed ch).1.hist = c.hist ∧
+    (attempts c n failed ch).1.diskServers = c.diskServers ∧
+    (attempts c n failed ch).1.diskGCA = c.diskGCA ∧
+    (attempts c n failed ch).1.diskShortId = c.diskShortId := by
+  induction n with
+  | zero => intro c failed ch; simp [attempts]
+  | succ n ih =>
+    intro c failed ch
+    cases ch with
+    | nil => simp [attempts]
+    | cons x rest =>
+      obtain ⟨k, a⟩ := x
+      simp only [attempts]
+      by_cases c1 : (!(c.servers.any fun p => eligible c failed p.1)) = true
+      · rw [if_pos c1]; simp
+      rw [if_neg c1]
+      by_cases c2 : (!eligible c failed k) = true
+      · rw [if_pos c2]; simp
+      rw [if_neg c2]
+      cases a with
+      | ok p => simp
+      | fail => exact ih { c with primary := k } (k :: failed) rest
 
 /-- A failed attempt changes nothing the property names (identity, GCA, server list, history, files). -/
 theorem c10_fail_keeps_state (c : Client) (k : Key) (rest : List (Key × Attempt)) (n : Nat) (failed : List Key) :
     let c' := (attempts c (n+1) failed ((k, .fail) :: rest)).1
     c'.gcaKey = c.gcaKey ∧ c'.shortId = c.shortId ∧ c'.servers = c.servers ∧ c'.hist = c.hist ∧
     c'.diskServers = c.diskServers ∧ c'.diskGCA = c.diskGCA ∧ c'.diskShortId = c.diskShortId := by
-  sorry
+  exact c10_attempts_keeps (n+1) c failed ((k, .fail) :: rest)
 
 /-- Non-vacuity: a minimal genuine reply (no servers) parses. -/
 example :
